@@ -326,6 +326,28 @@ def _len_tested_names(test: ast.AST) -> Set[str]:
     return out
 
 
+def _min_kept_length(test: ast.AST, name: str):
+    """smallest length of `name` for which the filter keeps the route (None: the test is not a plain threshold on len(name))"""
+    neg = False
+    while isinstance(test, ast.UnaryOp) and isinstance(test.op, ast.Not):
+        test, neg = test.operand, not neg
+    if isinstance(test, ast.Call) and dotted(test.func) == "len" and norm(test.args[0]) == name or (isinstance(test, ast.Name) and test.id == name):
+        return None if neg else 1
+    if not (isinstance(test, ast.Compare) and len(test.ops) == 1 and norm(test.left) == f"len({name})" and isinstance(test.comparators[0], ast.Constant)
+            and isinstance(test.comparators[0].value, int)):
+        return None
+    c, op = test.comparators[0].value, test.ops[0]
+    keep = {ast.Gt: c + 1, ast.GtE: c}.get(type(op))
+    if isinstance(op, ast.NotEq) and c == 0:
+        keep = 1
+    drop = {ast.Lt: c, ast.LtE: c + 1}.get(type(op))
+    if isinstance(op, ast.Eq) and c == 0:
+        drop = 1
+    if neg:
+        keep, drop = drop, keep
+    return keep      # (a `drop` form as the keeping test would be an inverted filter: not a threshold this rule judges)
+
+
 def emptiness_on_internal_route(cls: ClassInfo, f: FuncInfo, per_path: Set[str], rep, RID: str) -> int:
     """In node-weighted mode the published routes are condensed: a route through one node has a single element
     but carries flow.  When the class publishes `_paths_internal` / `_walks_internal`, the length test of the
@@ -379,6 +401,12 @@ def emptiness_on_internal_route(cls: ClassInfo, f: FuncInfo, per_path: Set[str],
                     and isinstance(src.orelse, ast.Subscript) and isinstance(src.orelse.slice, ast.Constant) and src.orelse.slice.value == pkey
                 )
                 on_published = isinstance(src, ast.Subscript) and isinstance(src.slice, ast.Constant) and src.slice.value == pkey
+                L = _min_kept_length(test, name)
+                if prefers_internal and L is not None and L >= 2:
+                    rep.violation(RID, key + ":threshold", f"`{norm(test)}` keeps a route only from {L} elements on: a route through a single node (an isolated node, a node "
+                                  "that is both a start and an end) carries weight in the model and is dropped from the solution together with its weight", f.loc(where))
+                elif prefers_internal and L == 1:
+                    rep.ok(RID, key + ":threshold", f"`{norm(test)}`: only routes without any element are empty", f.loc(where))
                 if prefers_internal:
                     rep.ok(RID, key, f"emptiness is decided on the internal route when there is one: `{text}`", f.loc(where))
                 elif on_published:
